@@ -20,9 +20,15 @@ META = dict(
           "BendStretch = Rz then slide along Mx; SphericalCoords = Rz(a)Ry(z), d along Mx|Mz; Ball/Free = rotation of the normalised quaternion or x-y-z Euler angles (+ p_FM); "
           "Ellipsoid: M origin on the ellipsoid surface, (0,0,rz) at q=0); R_FM proper orthonormal; H_FM*u is the velocity of the documented parameterisation under the documented meaning of the speeds "
           "(u = qdot, or u = w_FM (v_FM) in F for Ball/Free/Ellipsoid); a reversed mobilizer gives the inverse transform; setUToFitVelocity / setQToFitTransform "
-          "round trips on representable velocities / poses where the fit code is straight-line (branches of the Euler-angle extraction each under its own condition). "
+          "round trips on representable velocities / poses where the fit code is straight-line (branches of the Euler-angle extraction each under its own condition), "
+          "for the node's *Impl members and through the six public wrappers of RigidBodyNode.h (setQToFitTransform/Rotation/Translation, setUToFitVelocity/AngularVelocity/"
+          "LinearVelocity, transliterated each run) on forward AND reversed nodes: a reversed mobilizer fitted to its own (reversed) velocity H_FM*u gets u back (all "
+          "mobilizers but Ellipsoid); angular-only / linear-only requests return exactly the speeds that produce the requested part (linear-only on a reversed node under "
+          "the wrapper's own hypothesis of zero angular velocity; Free, Bushing, Translation, Slider, Cylinder, Planar); a reversed mobilizer fitted to its own pose ~X_MF(q) "
+          "reproduces that pose (Slider, Translation, Pin, Cylinder, Planar, BendStretch, Gimbal, Bushing, Ball/Free with Euler angles), setQToFitRotation alone reproduces the rotation, "
+          "setQToFitTranslation reaches the requested p_FM at unchanged orientation (Free, Bushing, Translation: any p_FM; Planar: in the plane; Slider/Cylinder: on the axis). "
           "Over the reals (z3 QF_NRA). NOT decided: the recursion over the multibody tree and frames X_PF/X_BM (getMobilizerTransform dispatch), "
-          "LineOrientation/FreeLine/CantileverFreeBeam/Custom mobilizers, fits through the two-angle extraction (Universal, SphericalCoords), Screw/Ellipsoid q-fits, float rounding."),
+          "LineOrientation/FreeLine/CantileverFreeBeam/Custom mobilizers, fits through the two-angle extraction (Universal, SphericalCoords), quaternion q-fits, Screw/Ellipsoid q-fits, float rounding."),
     note=("Assumes real arithmetic; trusts z3/cvc5, transliterator + plumbing rules (logged), symlib shim and the Node/Transform plumbing shim of checks/mobilizerlib.py. "
           "The oracle is written from the class documentation, independently of the code; it is cross-checked natively by replay/c05_replay.cpp. Level 'other': per-node kernel."),
     technique="symbolic execution of transliterated real code over the reals + SMT (z3 QF_NRA); dual numbers for the documented velocity; path splitting for the fit branches",
@@ -135,6 +141,33 @@ WRAPPER_CALLEES = ["isReversed", "calcAcrossJointTransform", "reverseSpatialVelo
                    "setQToFitTranslationImpl", "setUToFitVelocityImpl", "setUToFitAngularVelocityImpl", "setUToFitLinearVelocityImpl"]
 
 
+class FailFast:
+    """SMT goals of one (unit, wrapper). After the first goal that is not discharged the remaining goals are not sent to the solver and ONE obligation says so: on a
+    changed tree every goal of a broken unit may run into its budget (observed: reversed Gimbal/Bushing/Ball/Free q-fits with a wrong wrapper, 100+ goals x 2 min),
+    while the verdict of the run (VIOLATION / UNDECIDED) is already fixed by the first one. On the unchanged tree nothing is skipped."""
+    def __init__(self, B, unit, what):
+        self.B, self.unit, self.what, self.bad, self.skipped = B, unit, what, None, 0
+
+    def eq(self, name, lhs, rhs, side, function, timeout_ms=20000):
+        B = self.B
+        second = B.ctx.tier == "thorough" and len(B.ctx.obligations) < 600
+        side = B._with_env(side)
+        for i, g in S.eq_all(lhs, rhs):
+            if self.bad:
+                self.skipped += 1
+                continue
+            nm = "%s[%d]" % (name, i)
+            r = S.prove(g, side=list(side), timeout_ms=timeout_ms, name=nm, outdir=os.path.join(B.ctx.out, "smt2"), second_opinion=second)
+            B.record(nm, self.unit, r, function, "identity %s" % name)
+            if r.status != "discharged":
+                self.bad = nm
+
+    def close(self):
+        if self.skipped:
+            self.B.ctx.add(Obligation("%s:%s: %d further goals not sent to the solver after '%s' was not discharged" % (self.unit, self.what, self.skipped, self.bad[:160]), self.unit, "z3",
+                                      "undecided", 0, "skipped after the first goal of this unit that was not discharged (fail-fast)"))
+
+
 def add_wrappers(B, Node):
     for nm, sig in WRAPPERS.items():
         B.add_method(Node, M.RBN_H, sig, nm, methods=WRAPPER_CALLEES, cxxname="RigidBodyNode::" + nm)
@@ -174,6 +207,7 @@ def wrapped_ufit(B, sc, side, U, cls, rev):
         n0.setUToFitVelocity(n0.sbs, n0.q, V, u)
         return u
     seen, k = set(), 0
+    ff = FailFast(B, U, "setUToFitVelocity")
     for path, script, u in B.run_paths(run, 1):
         key = tuple(str(c) for c in path)
         if key in seen:
@@ -183,8 +217,9 @@ def wrapped_ufit(B, sc, side, U, cls, rev):
         if hyp is None:
             continue
         k += 1
-        B.prove_eq("%ssetUToFitVelocity: fit of the node's own V_FM = H_FM*u returns u%s" % (who, " (path %d)" % k if len(path) else ""), Vec(u), Vec(ustar), hyp, U,
-                   "RigidBodyNode::setUToFitVelocity + %s::setUToFitAngularVelocityImpl/LinearVelocityImpl" % cls, timeout_ms=60000)
+        ff.eq("%ssetUToFitVelocity: fit of the node's own V_FM = H_FM*u returns u%s" % (who, " (path %d)" % k if len(path) else ""), Vec(u), Vec(ustar), hyp,
+              "RigidBodyNode::setUToFitVelocity + %s::setUToFitAngularVelocityImpl/LinearVelocityImpl" % cls)
+    ff.close()
     # (2)/(3) angular-only and linear-only requests. Speeds: umix = u* on the slots the request determines, the current (arbitrary, uold) speeds elsewhere.
     #     Target := the angular / linear part of the node's OWN velocity H_FM*umix (real realize sequence). Obligation: the fit started from uold returns exactly
     #     umix, hence (congruence: realize is a function of (q,u)) the node's velocity after the fit has the requested angular / linear part and the other
@@ -197,6 +232,7 @@ def wrapped_ufit(B, sc, side, U, cls, rev):
             getattr(n0, fit)(n0.sbs, n0.q, M.vals(nt.V_FM[part]), u)
             return u, umix
         seen = set()
+        ff = FailFast(B, U, fit)
         for path, script, (u, umix) in B.run_paths(run, 1 if (linear and sc.name == "BendStretch") else 0):
             key = tuple(str(c) for c in path)
             if key in seen:
@@ -205,14 +241,21 @@ def wrapped_ufit(B, sc, side, U, cls, rev):
             hyp = ufit_hyps(B, sc, side, path, linear_branch=linear)
             if hyp is None:
                 continue
-            B.prove_eq("%s%s: %s" % (who, fit, text), Vec(u), Vec(umix), hyp + extra, U, "RigidBodyNode::%s + %s::%sImpl" % (fit, cls, fit), timeout_ms=60000)
-    # which speeds does the angular-only fit of this node write? (read off one symbolic execution: the slots whose content is no longer the old symbol)
-    def probe():
-        u = uold()
-        n0.setUToFitAngularVelocity(n0.sbs, n0.q, V[0], u)
-        return u
-    (path, script, up), = list(B.run_paths(probe, 0))
-    wslots = [i for i in range(sc.dof) if not z3.eq(z3.simplify(val(up[i])), val(uold()[i]))]
+            ff.eq("%s%s: %s" % (who, fit, text), Vec(u), Vec(umix), hyp + extra, "RigidBodyNode::%s + %s::%sImpl" % (fit, cls, fit))
+        ff.close()
+    # which speeds do the angular-only / linear-only fits of this NODE write? Read off one symbolic execution of the *Impl members themselves (not of the wrappers,
+    # so that a wrapper that drops its call is not excused): the slots whose content is no longer the old symbol. Guard: together they write every speed.
+    def written(impl, target):
+        def probe():
+            u = uold()
+            getattr(n0, impl)(n0.sbs, n0.q, target, u)
+            return u
+        up = list(B.run_paths(probe, 1))[-1][2]           # BendStretch linear: the non-singular branch (script False) writes both speeds
+        return [i for i in range(sc.dof) if not z3.eq(z3.simplify(val(up[i])), val(uold()[i]))]
+    wslots = written("setUToFitAngularVelocityImpl", V[0])
+    vslots = written("setUToFitLinearVelocityImpl", V[1])
+    B.ctx.add(Obligation("guard:%s every speed is written by setUToFitAngularVelocityImpl %s or setUToFitLinearVelocityImpl %s" % (L, wslots, vslots), U, "python",
+                         "discharged" if sorted(set(wslots) | set(vslots)) == list(range(sc.dof)) else "undecided", 0, "vacuity guard of the partial-fit obligations"))
     partial("setUToFitAngularVelocity", 0, wslots, [],
             "fit of w_FM := angular part of the node's own H_FM*(u* on the slots %s written by the fit, other speeds arbitrary) returns exactly those speeds" % wslots, False)
     # linear velocity only: mobilizers whose translational speeds can produce any (Slider, Cylinder: axial; Planar: in-plane) linear velocity. The reversed wrapper
@@ -248,8 +291,10 @@ def wrapped_qtrans(B, classes, name, opt, U, cls, rev):
     n2 = M.realize(sc.node(rev), q, None)
     hyp = sc.side() + target
     fn = "RigidBodyNode::setQToFitTranslation + %s::setQToFitTranslationImpl" % cls
-    B.prove_eq("%s: p_FM after the fit == requested p_FM%s" % (who, what), n2.X_FM.p(), pt, hyp, U, fn, timeout_ms=60000)
-    B.prove_eq("%s: R_FM after the fit == R_FM before (rotational coordinates arbitrary)%s" % (who, what), n2.X_FM.R(), M.vals(n0.X_FM.R()), hyp, U, fn, timeout_ms=60000)
+    ff = FailFast(B, U, "setQToFitTranslation")
+    ff.eq("%s: p_FM after the fit == requested p_FM%s" % (who, what), n2.X_FM.p(), pt, hyp, fn)
+    ff.eq("%s: R_FM after the fit == R_FM before (rotational coordinates arbitrary)%s" % (who, what), n2.X_FM.R(), M.vals(n0.X_FM.R()), hyp, fn)
+    ff.close()
     B.guard_sat("%s%s translation-only fit" % (sc.label, " reversed" if rev else ""), hyp, U)
 
 
@@ -265,6 +310,12 @@ def qfit(B, classes, name, opt, U, cls, ctx, rev=False, via="setQToFitTransformI
     nbr = {"Gimbal": 2, "Bushing": 2, "Pin": 2, "Cylinder": 2, "Planar": 2, "BendStretch": 3, "Ball:euler": 2, "Free:euler": 2, "Ellipsoid:euler": 2,
            "Ball:quat": 4, "Free:quat": 4}.get(name + (":" + opt if opt in ("euler", "quat") else ""), 0)
     state = {}
+    ff = FailFast(B, U, via)
+    def prove(tag, lhs, rhs, hyp, fn):
+        if wrapped:
+            ff.eq(tag, lhs, rhs, hyp, fn, timeout_ms=30000)
+        else:
+            B.prove_eq(tag, lhs, rhs, hyp, U, fn, timeout_ms=60000)
     def run():
         sc = M.Scenario(B, classes, name, opt)
         S.ENV.assume(z3.And(eps > 0, eps < z3.RealVal("1/8")))
@@ -287,7 +338,7 @@ def qfit(B, classes, name, opt, U, cls, ctx, rev=False, via="setQToFitTransformI
         singular = any(("Rsum" in str(c) or True) and str(c).startswith("Not") and "Eps" in str(c) for c in path[:1])
         if singular and name != "BendStretch":
             hyp.append(sc.q0[1].c == 0 if len(sc.q0) > 1 and isinstance(sc.q0[1], S.Angle) else z3.BoolVal(False))      # exact gimbal lock only (the band around it is a float matter)
-        if name == "BendStretch":
+        if name == "BendStretch" and not rot_only:
             hyp.append(val(sc.q0[1]) >= 0)               # the fit returns the polar radius d >= 0; (theta+pi, -d) is the same pose
             if any(str(c).startswith("Not") and "Eps" in str(c) for c in path):
                 hyp.append(val(sc.q0[1]) == 0)           # d < 4 Eps branch sets the radius to 0: exact only at d == 0 (the band is a float tolerance)
@@ -304,12 +355,26 @@ def qfit(B, classes, name, opt, U, cls, ctx, rev=False, via="setQToFitTransformI
             who = "%s%s through RigidBodyNode::%s" % (sc.label, " reversed" if rev else "", via)
             tag = ("%s: R_FM(setQToFitRotation(R_FM(q))) == R_FM(q), branch %d%s" if rot_only else "%s: X_FM(setQToFitTransform(X_FM(q))) == X_FM(q), branch %d%s") % (who, k, sing)
             fn = "RigidBodyNode::%s + %s::setQToFitRotationImpl%s" % (via, cls, "" if rot_only else "/TranslationImpl")
-        B.prove_eq(tag + " [R]", n2.X_FM.R(), M.vals(n0.X_FM.R()), hyp, U, fn, timeout_ms=60000)
-        if not rot_only:
-            B.prove_eq(tag + " [p]", n2.X_FM.p(), M.vals(n0.X_FM.p()), hyp, U, fn, timeout_ms=60000)
+        prove(tag + " [R]", n2.X_FM.R(), M.vals(n0.X_FM.R()), hyp, fn)
+        if rot_only:
+            continue
+        ts = TSLOTS.get(name) if (wrapped and rev) else None
+        if ts is None:
+            prove(tag + " [p]", n2.X_FM.p(), M.vals(n0.X_FM.p()), hyp, fn)
+        else:
+            # reversed Free / Bushing: the target handed to the *Impl is ~(~X_MF), whose translation is R~R p as a polynomial; the direct [p] goal (the Euler-angle
+            # extraction and R~R == 1 in one goal) does not discharge (85-160 s, unknown). Cut on the translational coordinates instead:
+            #   [t]   the translational coordinates after the fit are those of q                                     (SMT)
+            #   [p|t] p_FM(rotational coordinates after the fit, translational coordinates of q) == p_FM(q)          (SMT)
+            # => p_FM(coordinates after the fit) == p_FM(q): substitution of [t] in the argument of the realize sequence (congruence; listed under assumptions)
+            prove(tag + " [t] translational coordinates after the fit == translational coordinates of q", Vec([q[i] for i in ts]), Vec([sc.q0[i] for i in ts]), hyp, fn)
+            n3 = M.realize(sc.node(rev), [sc.q0[i] if i in ts else q[i] for i in range(len(q))], None)
+            prove(tag + " [p|t] p_FM(rotational coordinates after the fit, translational coordinates of q) == p_FM(q)", n3.X_FM.p(), M.vals(n0.X_FM.p()), hyp, fn)
+    ff.close()
     return k
 
 
+TSLOTS = {"Free": [3, 4, 5], "Bushing": [3, 4, 5]}      # translational coordinate slots (Euler-angle form) of the mobilizers whose reversed transform fit is proved by the cut [t], [p|t]
 QFIT = [("Slider", None, 1), ("Translation", None, 1), ("Pin", None, 1), ("Cylinder", None, 1), ("Planar", None, 1), ("BendStretch", None, 1),
         ("Gimbal", None, 3), ("Bushing", None, 3), ("Ball", "euler", 3), ("Free", "euler", 3)]
 # quaternion q-fits (Ball/Free[quat]: setQToFitRotation through convertRotationToQuaternion, 4 sqrt branches) are NOT claimed in either tier: 77 min and some
@@ -357,8 +422,6 @@ def main(ctx):
         key = name + (":" + opt if opt else "")
         if only and not re.search(only, key + ".qfit"):
             continue
-        if opt == "quat" and ctx.tier != "thorough":
-            continue                                     # 4 sqrt branches x 60 s budgets: thorough tier only (C27 proves the converter round trip itself)
         try:
             k = qfit(B, classes, name, opt, "mob." + key + ".qfit", classes[name].__name__, ctx)
             if k < minpaths:
@@ -370,8 +433,6 @@ def main(ctx):
     # the same q-fit round trips through the public wrappers (forward and reversed nodes), the rotation-only and the translation-only wrappers
     for name, opt, minpaths in QFIT:
         key = name + (":" + opt if opt else "")
-        if opt == "quat" and ctx.tier != "thorough":
-            continue
         for rev in (False, True):
             for via in ("setQToFitTransform", "setQToFitRotation"):
                 unit = "mob.%s%s.wrap.%s" % (key, ".reversed" if rev else "", "qfit" if via == "setQToFitTransform" else "rfit")
@@ -379,7 +440,7 @@ def main(ctx):
                     continue
                 try:
                     k = qfit(B, classes, name, opt, unit, classes[name].__name__, ctx, rev=rev, via=via)
-                    need = minpaths if via == "setQToFitTransform" else min(minpaths, 1)
+                    need = minpaths                     # the branches are those of the rotation extraction (BendStretch: +1 infeasible-for-d>0 branch of the translation fit)
                     if k < need:
                         ctx.undecide("%s: only %d feasible branches of %s explored, expected >= %d" % (unit, k, via, need))
                 except ExtractionError as e:
@@ -388,8 +449,6 @@ def main(ctx):
                     ctx.undecide("%s: symbolic execution of the transliterated code failed: %r" % (unit, e))
     for name, opt in QTRANS:
         key = name + (":" + opt if opt else "")
-        if opt == "quat" and ctx.tier != "thorough":
-            continue
         for rev in (False, True):
             unit = "mob.%s%s.wrap.tfit" % (key, ".reversed" if rev else "")
             if only and not re.search(only, unit):
@@ -409,18 +468,33 @@ def main(ctx):
     ctx.assume("cos/sin enter only through (c,s) with c^2+s^2=1; sqrt(e) = r with r>=0, r^2=e; atan2(y,x) through its defining equations (rho>0, c*rho=x, s*rho=y)")
     ctx.assume("the oracle is the class documentation of MobilizedBody_<Type>.h: elementary rotations Rx,Ry,Rz, body-fixed = left-to-right product, "
                "quaternion rotation of the normalised quaternion (homogeneous form / |q|^2), Ellipsoid: M origin on the surface of the ellipsoid (RigidBodyNodeSpec_Ellipsoid.h class comment)")
+    ctx.assume("congruence steps (not SMT obligations): the realize sequence is a function of (q,u), so 'the fit returns exactly the speeds umix' gives 'the velocity after the fit is H_FM*umix', "
+               "whose angular / linear part is the request by construction; likewise [t] (translational coordinates after the fit == those of q) and [p|t] give p_FM(fitted coordinates) == p_FM(q) "
+               "for the reversed Free/Bushing transform fit")
+    ctx.assume("RigidBodyNode::calcAcrossJointTransform(sbs, q, X) == performQPrecalculations + calcX_FM of the same node on the given q with a local pool (mobilizerlib.Node shim of RigidBodyNode.h:226-251)")
     ctx.assume("state plumbing (mobilizerlib.Node/Sbs/realize) as in C03: cache accessors hand back what the realize sequence stored; slot/pointer views per plumbing rule log")
     ctx.not_decided += ["recursion over the multibody tree and the frames X_PF, X_BM; MobilizedBody::getMobilizerTransform/setQToFit*/setUToFit* dispatch (MobilizedBody.cpp)",
                         "LineOrientation, FreeLine, CantileverFreeBeam, Weld, Custom/FunctionBased mobilizers",
                         "setQToFitRotation of Universal and SphericalCoords (two-angle extraction: sqrt-averaged estimates, goals time out as in C27), Screw (angle vs p/pitch), Ellipsoid fits",
-                        "fits to NON-representable targets (documented 'closest' element), angle extraction inside the tolerance band around gimbal lock, quaternion q-fits in the quick tier",
+                        "fits to NON-representable targets (documented 'closest' element), angle extraction inside the tolerance band around gimbal lock",
+                        "quaternion q-fits (setQToFitRotation through convertRotationToQuaternion: 4 sqrt branches; the converter round trip itself is proved in C27), forward and reversed, both tiers "
+                        "(the translation-only fit of Free[quat] is covered: it does not go through the converter)",
                         "Screw with pitch == 0: setQToFitTranslation/setUToFitLinearVelocity divide by the pitch (0/0); the round trip is proved for pitch != 0 only",
                         "SphericalCoords setQToFitTranslation (q-fit): fixed in the tree together with the u-fits (finding F15) but only the u-fit round trip is under obligation (the q-fit needs the two-angle extraction)",
                         "Ellipsoid 'surface normal at the M origin is aligned with Mz' (implementation class comment only, not the public documentation): does not hold for unequal radii; observation, not claimed",
                         "Ellipsoid setQToFitTranslation/setUToFitLinearVelocity are documented direction-only approximations (exact for a sphere): representable poses are not reproduced for unequal radii (observed natively, not claimed)",
-                        "reversed fits (setQToFitTransform/setUToFitVelocity wrappers of RigidBodyNode.h)", "float rounding; |quat| = 0"]
+                        "velocity-level form of the angular-only / linear-only fits ('the angular part of H_FM*u after the fit == w_FM') as ONE SMT goal: for the reversed Free it is a 9th-degree "
+                        "identity in the Euler sines/cosines and runs into the budget; proved instead: the fit returns exactly the speeds umix whose velocity H_FM*umix defines the request",
+                        "p_FM of the reversed Free[euler]/Bushing transform fit as ONE SMT goal (85-160 s, unknown): proved by the cut [t] (translational coordinates reproduced) + [p|t]",
+                        "linear-only / translation-only wrappers for BendStretch, Screw, SphericalCoords, Ellipsoid (translation coupled to the rotational coordinates); linear-only fit of a reversed "
+                        "mobilizer with NON-zero angular velocity (the wrapper itself assumes w_FM = 0, a documented TODO in RigidBodyNode.h)",
+                        "RigidBodyNode::calcAcrossJointTransform (operator form used by the reversed wrappers; new[]/delete[] of the q pool) is plumbing: modelled by mobilizerlib.Node.calcAcrossJointTransform "
+                        "(performQPrecalculations + calcX_FM of the node on a local pool)",
+                        "float rounding; |quat| = 0"]
     ctx.explanation = "%d functions transliterated; %d obligations over %d mobilizer scenarios." % (len(ctx.functions), len(ctx.obligations), len(SCENARIOS))
     def rep(ob):
-        checks = "U" if "setUToFit" in ob.name else ("F" if "setQToFit" in ob.name else "XVAQ")
-        return C03.replay(ctx, ob, checks=checks)
+        n = ob.name
+        checks = ("W" if "setUToFitAngularVelocity" in n else "L" if "setUToFitLinearVelocity" in n else "R" if "setQToFitRotation" in n else "T" if "setQToFitTranslation" in n
+                  else "U" if "setUToFit" in n else "F" if "setQToFit" in n else "XVAQ")
+        return C03.replay(ctx, ob, checks=checks, extra=("pt", "uold", "qold"))
     return ctx.finish(replayer=rep)
